@@ -7,6 +7,7 @@ A history is a tuple of ops on ONE element of type T (children are fresh, childl
    ('rm', j)             e.remove(j-th child of the insertion view)
    ('rep', j, b)         e.replace_child(j-th child of the insertion view, child(b))
    ('repc', j)           e.replace_child(<function selecting the j-th child>, new child of the same kind)
+   ('selfrep', j)        e.replace_child(c, c) for the j-th child c
    ('rmk', k)            e.remove(k-th child ever created in this history) -- also children that are no longer (or never were) attached
    ('set', a)            e.xml_<a> = child(a)            (shortcut syntax)
    ('unset', a)          e.xml_<a> = None
@@ -95,6 +96,12 @@ def apply_op(lib, e, op, kids):
                 return 'n/a'
             c = lib.child(op[2]); kids.append(c)
             e.replace_child(ch[op[1]], c)
+        elif k == 'selfrep':
+            # replace a child by itself (what `e.xml_x = e.xml_x` does)
+            ch = e.get_children(ordered=False)
+            if op[1] >= len(ch):
+                return 'n/a'
+            e.replace_child(ch[op[1]], ch[op[1]])
         elif k == 'repc':
             # replace_child(<callable selecting the op[1]-th child>, new child of the same kind)
             ch = e.get_children(ordered=False)
@@ -281,6 +288,15 @@ def histories(alphabet, k_add, with_rm=True, with_rep=True, dup_names=(), k_afte
                 yield tuple(seq) + (('set', a),)
                 if any(op[1] == a for op in seq):
                     yield tuple(seq) + (('unset', a),)
+    # a serialisation in the MIDDLE of a history (memoised verdicts must not survive later mutations), and self-replacement
+    for k in range(1, min(k_add, 2 if len(alphabet) <= 12 else 1) + 1):
+        for seq in itertools.product(adds, repeat=k):
+            for j in range(k):
+                yield tuple(seq) + (('str', False), ('rm', j))
+                yield tuple(seq) + (('selfrep', j), ('rm', j))
+            if len(alphabet) <= 12:
+                for a in alphabet:
+                    yield tuple(seq) + (('str', False), ('add', a))
     # explicit forward=0 for every name (a legal index whenever the name has a leaf), after short add-sequences
     for k in range(0, min(k_add, 2 if len(alphabet) <= 12 else 1) + 1):
         for seq in itertools.product(adds, repeat=k):
